@@ -54,6 +54,12 @@ pub fn run() {
     println!("C09-union-kid-types  UnionArray::try_new(fields {{a: Int32, b: Int32}}, children [Int64, Int32]): {}; to_data().validate_full(): {}",
         ok(&t), t.as_ref().map(|u| ok(&u.to_data().validate_full())).unwrap_or_default());
 
+    // C09-fsl-len-overflow
+    let f = Arc::new(Field::new("item", DataType::Int8, true));
+    let t = guarded(|| FixedSizeListArray::try_new_with_length(f, 2, Arc::new(Int8Array::from(Vec::<i8>::new())), None, 1usize << 63));
+    println!("C09-fsl-len-overflow FixedSizeListArray::try_new_with_length(size 2, empty values, len 2^63): {}",
+        match &t { Ok(r) => format!("{} (len {:?})", ok(r), r.as_ref().map(|a| a.len()).ok()), Err(p) => format!("panic {p}") });
+
     // C01-arraydata-slice-struct
     let st = StructArray::new(Fields::from(vec![Field::new("a", DataType::Int32, true)]), vec![Arc::new(Int32Array::from(vec![1, 2, 3, 4, 5]))], None);
     let s = st.to_data().slice(2, 3);
